@@ -520,7 +520,8 @@ theorem inv_step {cfg : Cfg} (wf : WF cfg) {s : St} (h : Inv cfg s) (e : Ev) :
     split
     · exact h'.clear
     · rename_i hnf; exact ⟨h', by simpa using hnf⟩
-  | api m => exact h
+  | api m => simp only [step]; split <;> (try split) <;> exact h
+  | dropDevice => exact ⟨⟨h.1.raised, h.1.calls, h.1.notif, h.1.opened, h.1.closed, h.1.inner⟩, h.2⟩
   | pushStart =>
     simp only [step]
     split
@@ -685,7 +686,8 @@ theorem step_grows (cfg : Cfg) (s : St) (e : Ev) : Grows s (step cfg s e).1 := b
     split
     · exact this.trans ⟨List.prefix_refl _, List.prefix_refl _, id⟩
     · exact this
-  | api m => exact Grows.refl s
+  | api m => simp only [step]; split <;> (try split) <;> exact Grows.refl s
+  | dropDevice => exact ⟨List.prefix_refl _, List.prefix_refl _, id⟩
   | pushStart => simp only [step]; split <;> exact Grows.refl s
   | pushStop => simp only [step]; split <;> exact Grows.refl s
   | push i b =>
@@ -721,6 +723,7 @@ theorem closed_of_closing {cfg : Cfg} (wf : WF cfg) {s : St} (h : Inv cfg s) (e 
     simp only [step]
     split <;> exact hx
   | api m => simp [Ev.isClosing] at he
+  | dropDevice => simp [Ev.isClosing] at he
   | pushStart => simp [Ev.isClosing] at he
   | pushStop => simp [Ev.isClosing] at he
   | push i b => simp [Ev.isClosing] at he
@@ -744,7 +747,8 @@ theorem step_closed_frame {cfg : Cfg} (wf : WF cfg) (s : St) (x : Nat) (h : Inv 
     have hc : closeF cfg topFuel s = s := closeF_cached cfg 1 s x hp
     simp only [step, hc]
     split <;> exact Same.refl s
-  | api m => exact Same.refl s
+  | api m => simp only [step]; split <;> (try split) <;> exact Same.refl s
+  | dropDevice => exact ⟨rfl, rfl, rfl⟩
   | pushStart => simp only [step]; split <;> exact Same.refl s
   | pushStop => simp only [step]; split <;> exact Same.refl s
   | push i b =>
